@@ -354,7 +354,7 @@ def tdb_rules(ctx, A):
     rr = A['RR']
     P = ctx.prog
     where = loc(tdb.span)
-    gs = guards_of(tdb)
+    gs = guards_of(tdb) + lifted_guards(tdb, skip={rr.id})
     ok_exit = [x for x in tdb.exits() if x['kind'] == 'ok_some']
     if len(ok_exit) != 1:
         ctx.fail_closed(['C01', 'C02', 'C03'], 'R-ANCHOR', 'TDB|success-exit', 'expected one Ok(Some(ItemStateResolved{..})) exit, found %d' % len(ok_exit), where)
@@ -515,7 +515,7 @@ def tdb_rules(ctx, A):
         over_R = src is not None and any(strip(x) == R for x in walk(src)) and sty and re.match(r"^std::slice::Iter<'_, %s>$" % re.escape(REGION), sty)
         ctx.ob(['C13'], 'R-ITER', 'G7|every-region', bool(okit and over_R), 'the defaultable check visits every region (iterator %s) whenever defaultable is set' % sty, g7a[0].where())
     # G8 duplicate method names
-    g8 = [g for g in gs if g.kind == 'reject' and is_call(g.pred, 'HashSet::<T, S, A>::contains') or (g.kind == 'reject' and is_call(g.pred, 'contains') and 'HashSet' in g.pred[4])]
+    g8 = [g for g in gs if g.kind == 'reject' and (g.pred[0] == 'call' and re.search(SETM('contains'), g.pred[1]))]
     ok8 = False
     if len(g8) == 1:
         L = innermost_loop(tdb, g8[0].block)
@@ -578,6 +578,19 @@ def census(ctx, A):
             if g.kinds <= {'err_prop'} and g.pred[0] == 'fails':
                 src = _head(g.pred[1])
                 ok = any(s in src for s in EXPECTED_PROP)
+                if not ok:
+                    # a helper that only checks (returns Result<()>) is judged by its own guards
+                    e_ = g.pred[1]
+                    while e_[0] == 'call' and (e_[3].endswith('Context::with_context') or e_[3].endswith('Context::context')):
+                        e_ = e_[2][0]
+                    cal = fn.prog.fns.get(e_[1]) if e_[0] == 'call' else None
+                    if cal is not None and cal.raw.get('output', '').startswith('std::result::Result<(), '):
+                        sub = [g2 for g2 in guards_of(cal) if g2.kind == 'reject']
+                        if sub and all(g2.pred[0] != 'fails' and any(m(g2) for t, m, _ in EXPECTED_OWN) for g2 in sub):
+                            for g2 in sub:
+                                tag = [t for t, m, _ in EXPECTED_OWN if m(g2)][0]
+                                ctx.ob(['C03', 'C10'], 'R-CENSUS', 'own|%s|%s' % (short(cal.id), tag), True, 'rejection (in helper %s) implements: %s' % (short(cal.id), tag), g2.where())
+                            continue
                 ctx.ob(['C03', 'C10'], 'R-CENSUS', 'propagated|%s|%s' % (short(fn.id), src if ok else 'unexpected:' + src[:60]), ok,
                        'error propagated from %s' % src[:100] if ok else 'a new fallible step can reject a type description: %s' % src[:160], g.where())
                 continue
